@@ -70,7 +70,9 @@ func (p *c09prop) Plan(tier string, seed int64) []core.Segment {
 		{Kind: "fixed", N: int64(len(c09fixed))},
 		{Kind: "corpus:family", N: 600},
 		{Kind: "family", N: fam},
-		{Kind: "bstar", N: fam},
+		{Kind: "bstar", N: fam * 14},
+		{Kind: "symbolic", N: fam * 100},
+		{Kind: "runpattern", N: fam * 60},
 		{Kind: "big", N: big, Chunk: 1},
 	}
 }
@@ -171,6 +173,138 @@ var c09fixed = func() [][]byte {
 	}
 }()
 
+// symText builds a text from a "symbol string": every symbol s becomes the
+// word 'a', 0xff, 'b'+s, so that the reduced problem of the B* suffixes that
+// the tandem-repeat sorter (trsort) has to solve is exactly the symbol string.
+// The string is composed of the ingredients that steer trsort: tandem repeats
+// of short words over two adjacent symbols (nested and occurring several
+// times with distinct terminators), decoys that make a neighbouring group
+// larger, and increasing ramps that occur twice and burn the sort budget.
+func symText(r *rand.Rand) []byte {
+	var sym []int
+	term := 1
+	next := func() int { term++; return term - 1 }
+	x := 30 + r.Intn(30)
+	y := x + 1 + r.Intn(4)
+	parts := 2 + r.Intn(5)
+	for p := 0; p < parts; p++ {
+		switch r.Intn(6) {
+		case 0, 1: // tandem repeat of a word over {x, y}, occurring several times
+			w := make([]int, 2+r.Intn(4))
+			for i := range w {
+				w[i] = x
+			}
+			if r.Intn(4) > 0 {
+				w[len(w)-1] = y
+			}
+			if r.Intn(4) == 0 {
+				w[r.Intn(len(w))] = y
+			}
+			k := 2 + r.Intn(5)
+			occ := 1 + r.Intn(3)
+			tail := r.Intn(3)
+			for o := 0; o < occ; o++ {
+				for j := 0; j < k; j++ {
+					sym = append(sym, w...)
+				}
+				for t := 0; t < tail; t++ {
+					sym = append(sym, y+1+t)
+				}
+				sym = append(sym, next())
+			}
+		case 2: // decoys x y t / x x y t
+			n := 1 + r.Intn(12)
+			for i := 0; i < n; i++ {
+				sym = append(sym, x)
+				if r.Intn(3) == 0 {
+					sym = append(sym, x)
+				}
+				sym = append(sym, y, next())
+			}
+		case 3: // a ramp that occurs twice (uses up the budget)
+			lo := term + 2 + r.Intn(4)
+			l := 3 + r.Intn(30)
+			if lo+l >= x {
+				l = x - lo - 1
+			}
+			if l < 2 {
+				break
+			}
+			occ := 2 + r.Intn(2)
+			for o := 0; o < occ; o++ {
+				for s := lo; s < lo+l; s++ {
+					sym = append(sym, s)
+				}
+				sym = append(sym, next())
+			}
+			term = lo + l + 1
+		case 4: // runs x^k with varying terminators
+			n := 2 + r.Intn(9)
+			for i := 0; i < n; i++ {
+				for j, k := 0, 1+r.Intn(4); j < k; j++ {
+					sym = append(sym, x)
+				}
+				c := y
+				if r.Intn(3) == 0 {
+					c = y + 1
+				}
+				sym = append(sym, c, next())
+			}
+		default: // random small symbols
+			for i, n := 0, 1+r.Intn(10); i < n; i++ {
+				sym = append(sym, 1+r.Intn(x))
+			}
+		}
+		if term >= x-2 {
+			x += 40
+			y = x + 1 + r.Intn(4)
+		}
+		if x > 230 {
+			break
+		}
+	}
+	b := make([]byte, 0, 3*len(sym))
+	style := r.Intn(4)
+	for _, s := range sym {
+		switch style {
+		case 0, 1, 2:
+			b = append(b, 'a', 0xff, byte('b'+s%254))
+		default: // two bytes per word
+			b = append(b, 'a', byte('b'+s%254))
+		}
+	}
+	return b
+}
+
+// runPattern builds texts of two-letter runs from a small set of words
+// a^i b^j, each repeated several times, the whole unit repeated: tandem
+// repeats on the level of the B* substrings.
+func runPattern(r *rand.Rand) []byte {
+	nw := 2 + r.Intn(5)
+	var unit []byte
+	for w := 0; w < nw; w++ {
+		i, j := 1+r.Intn(4), r.Intn(5)
+		k := 1 + r.Intn(7)
+		for t := 0; t < k; t++ {
+			for q := 0; q < i; q++ {
+				unit = append(unit, 'a')
+			}
+			for q := 0; q < j; q++ {
+				unit = append(unit, 'b')
+			}
+		}
+	}
+	m := 2 + r.Intn(11)
+	b := bytes.Repeat(unit, m)
+	if r.Intn(3) == 0 {
+		b = append(b, unit[:r.Intn(len(unit)+1)]...)
+	}
+	if len(b) > 4000 {
+		b = b[:4000]
+	}
+	return b
+}
+
 func (p *c09prop) Gen(kind string, idx int64, seed int64, tier string) core.Case {
 	class, arg := splitKind(kind)
 	var sc SfxCase
@@ -194,6 +328,10 @@ func (p *c09prop) Gen(kind string, idx int64, seed int64, tier string) core.Case
 			k = arg
 		}
 		switch k {
+		case "symbolic":
+			sc = SfxCase{Text: symText(r), Family: "symbolic"}
+		case "runpattern":
+			sc = SfxCase{Text: runPattern(r), Family: "runpattern"}
 		case "bstar":
 			n := 20 + r.Intn(1+r.Intn(6000))
 			sc = SfxCase{Text: bstarText(r, n), Family: "bstar"}
@@ -262,6 +400,10 @@ func (p *c09prop) Run(c *core.Case, st *core.Stats) []core.Violation {
 		return []core.Violation{core.V(c, "text-modified", "suffix.Sort modified t for %s", desc())}
 	}
 	small := n <= 2000
+	if (sc.Family == "symbolic" || sc.Family == "runpattern") && n > 150 {
+		// high-volume families: linear-time checker
+		small = false
+	}
 	if small {
 		want := ref.NaiveSA(t)
 		for i := range want {
